@@ -34,7 +34,8 @@ def faulty_seq(rng, tags, cid, fault, place, limit):
     pre = [valid() for _ in range(place)]
     post = [valid() for _ in range(rng.randrange(0, 2))]
     seq = [["n", cid]]
-    if fault in ("garbage", "unknown_method", "wrong_types", "missing_params", "not_object", "truncated_json"):
+    if fault in ("garbage", "unknown_method", "wrong_types", "missing_params", "not_object", "truncated_json") \
+            or fault.startswith("utf8_"):
         stream = sg.wire(pre + [sg.bad_frame(fault, cid, tags.next())] + post)
         seq += [["a", cid, ch.hex()] for ch in sg.cut(stream, [rng.randrange(1, len(stream)) for _ in range(rng.randrange(0, 3))])]
     elif fault == "empty_frame":
@@ -127,6 +128,35 @@ def gen_cases(ck, limit):
         m = sg.random_merge(rng, seqs)
         mask = rng.choice([(1 << len(m)) - 1, 0, rng.getrandbits(len(m)), rng.getrandbits(len(m))])
         add(sg.with_polls(m, mask), fids, hids, "random_%d_faults" % nf, {"faults": faults})
+    # (u) frames that are not UTF-8 (lone continuation bytes, truncated and overlong sequences, 0xff/0xfe, an
+    #     encoded surrogate, beyond U+10FFFF), bare, before/after an otherwise valid call, inside a string
+    #     parameter, inside the method name, inside a key: the connection ends, nobody else notices, and
+    #     the server does not panic
+    for ui, fault in enumerate(sg.UTF8_BAD):
+        for variant in range(1 if quick else 4):
+            tags = sg.Tags()
+            fcid = (ui + variant) % 2
+            hseq, _ = healthy_seq(rng, tags, 1 - fcid, False)
+            fseq = faulty_seq(rng, tags, fcid, fault, (ui + variant) % 3, limit)
+            m = sg.random_merge(rng, [hseq, fseq])
+            add(sg.with_polls(m, (1 << len(m)) - 1 if variant == 0 else rng.getrandbits(len(m))), [fcid], [1 - fcid],
+                "invalid_utf8", {"fault": fault})
+    # (h) a client hangs up or gets a read error WHILE another client's subscription is open; the items and
+    #     the end of that stream come only afterwards
+    for how in ("c", "fr"):
+        for n_items in (0, 2):
+            for behind in (0, 2):
+                for fpos in (0, 1):
+                    tags = sg.Tags()
+                    h, f = 1 - fpos, fpos
+                    frh = [sg.call("Sub", h, tags.next(), more=rng.choice(sg.MORE))] + \
+                          [sg.call(rng.choice(["Echo", "Count"]), h, tags.next(), v=4) for _ in range(behind)]
+                    ev = [["n", 0], ["n", 1], ["a", h, sg.wire(frh).hex()], ["p"],
+                          ["a", f, sg.wire([sg.call("Echo", f, tags.next(), v=5)]).hex()], [how, f], ["p"]]
+                    for j in range(n_items):
+                        ev += [["si", h, 40 + j, 1], ["p"]]
+                    ev += [["se", h], ["p"], ["p"]]
+                    add(ev, [f], [h], "hangup_during_stream", {"fault": "hangup_" + how, "items": n_items})
     # (d) the faulty client is in reply-stream mode: it makes a `more` call (the service answers Multi), some
     #     items go through, then its write fails at item k (every k) -- with 0..3 healthy plain clients (also a
     #     healthy streaming one, so that the failing stream is not at index 0), and with NO other connection,
